@@ -288,3 +288,8 @@ pub fn shards(alpha_len: usize, k: usize) -> Vec<Vec<u8>> {
     }
     out
 }
+
+/// dedup by JSON text (keeps 1 and 1.0 apart)
+pub fn dedup_text(v: Vec<Value>) -> Vec<Value> {
+    dedup(v)
+}
